@@ -84,7 +84,20 @@ impl BuildJob<'_> {
     ) -> Result<Pin<Box<dyn Future<Output = i32> + 'a>>, RedoError> {
         let before_t = try_stat(self.t.as_path()).map_err(RedoError::opaque_error)?;
         debug_assert!(self.lock.is_owned());
-        let (is_target, dirty) = (self.should_build_func)(&mut ptx, &self.t)?;
+        let (is_target, dirty) = match (self.should_build_func)(&mut ptx, &self.t) {
+            Ok(r) => r,
+            Err(e) => match immediate_exit_code(&e) {
+                // A refusal with an exit status of its own (the target already
+                // failed in this run) is the outcome of this job, not of the
+                // whole command: the other targets are still handled, subject
+                // to --keep-going, and running jobs are waited for.
+                Some(rv) => {
+                    log_err!("{}\n", e);
+                    return Ok(Box::pin(future::ready(rv)));
+                }
+                None => return Err(e),
+            },
+        };
         match dirty {
             Dirtiness::Clean => {
                 // Target doesn't need to be built; skip the whole task.
@@ -904,6 +917,20 @@ where
     // the above loop.
     job_futures.fold((), |_, _| future::ready(())).await;
     result.replace(Ok(()))
+}
+
+/// Returns the exit status carried by the first `ImmediateExit` in the error chain.
+fn immediate_exit_code(e: &RedoError) -> Option<i32> {
+    let mut next: Option<&(dyn std::error::Error + 'static)> = Some(e);
+    while let Some(e) = next {
+        if let Some(RedoErrorKind::ImmediateExit(code)) =
+            e.downcast_ref::<RedoError>().map(RedoError::kind)
+        {
+            return Some(*code);
+        }
+        next = e.source();
+    }
+    None
 }
 
 /// Polls a future and a stream, discarding any results from the stream.
